@@ -35,7 +35,7 @@ SPEC = {
     "assumptions": ["floats read as reals in the symbolic part", "the generated .c/.cpp files present next to the .pyx are those the installed .so was built from (their prange pragmas are audited against the source)"],
 }
 
-JOB_TIMEOUT = {"quick": 900, "thorough": 3000}
+JOB_TIMEOUT = {"quick": 400, "thorough": 3000}
 RS = z3.RealSort()
 
 
